@@ -215,7 +215,7 @@ func (si *structInfo) ctor() string     { return "mk." + si.Sort }
 // tagOf returns the type tag (a positive Int) of a concrete Go type.
 func (U *Universe) tagOf(t types.Type) int {
 	t = types.Unalias(t)
-	k := types.TypeString(t, func(p *types.Package) string { return p.Name() })
+	k := normTypeKey(types.TypeString(t, func(p *types.Package) string { return p.Name() }))
 	if id, ok := U.tags[k]; ok {
 		return id
 	}
@@ -247,8 +247,14 @@ func tagSym(k string) string {
 }
 
 func (U *Universe) typeKey(t types.Type) string {
-	t = types.Unalias(t)
-	return types.TypeString(t, func(p *types.Package) string { return p.Name() })
+	return normTypeKey(types.TypeString(types.Unalias(t), func(p *types.Package) string { return p.Name() }))
+}
+
+// normTypeKey: interface{} and any are the same type
+func normTypeKey(k string) string {
+	k = strings.ReplaceAll(k, "interface {}", "any")
+	k = strings.ReplaceAll(k, "interface{}", "any")
+	return k
 }
 
 func (U *Universe) boxSym(t types.Type) string {
